@@ -98,7 +98,10 @@ class ValueGen:
         tail_missing = False
         # a <dummy> is written only when nothing else was: make "nothing else" likely when there is one
         hollow = any(i["tag"] == "dummy" for i in spec.Analysis.flatten_noswitch(body)) and draw(st.integers(0, 9)) < 4
-        for name, ins, kind in members:
+        for name, ins, kind in _members_with_breaks(body):
+            if kind == "break":
+                tail_missing = False      # a <break> starts a new segment with its own optional tail
+                continue
             if kind == "case_data":
                 continue
             if kind == "field":
@@ -172,6 +175,25 @@ class ValueGen:
         d = self.body(draw, case["body"])
         d["__case__"] = spec.case_class_name(sw, case)
         return d
+
+
+def _members_with_breaks(body, out=None):
+    """spec.body_members plus ("", ins, "break") markers, in document order."""
+    if out is None:
+        out = []
+    for ins in body:
+        t = ins["tag"]
+        if t == "field" and ins.get("name") is not None:
+            out.append((ins["name"], ins, "field"))
+        elif t == "array":
+            out.append((ins["name"], ins, "array"))
+        elif t == "switch":
+            out.append((ins["field"] + "_data", ins, "case_data"))
+        elif t == "break":
+            out.append(("", ins, "break"))
+        elif t == "chunked":
+            _members_with_breaks(ins["body"], out)
+    return out
 
 
 def values(an, body, **kw):
